@@ -239,3 +239,30 @@ def grind(version, prev_display, root_display, timestamp, bits4, start_nonce=0, 
         if (v < t) == want_valid and v != t:
             return h
         n += 1
+
+
+TWO_WEEKS = 14 * 24 * 3600
+POW_LIMIT = 0xFFFF << 208
+
+
+def target_to_compact(t):
+    """arith_uint256::GetCompact (non-negative)."""
+    size = (t.bit_length() + 7) // 8
+    if size <= 3:
+        compact = t << (8 * (3 - size))
+    else:
+        compact = t >> (8 * (size - 3))
+    if compact & 0x00800000:
+        compact >>= 8
+        size += 1
+    return struct.pack("<I", compact | (size << 24))
+
+
+def retarget(bits4, actual_timespan, pow_limit=POW_LIMIT):
+    """CalculateNextWorkRequired (without the testnet rules)."""
+    t = min(max(actual_timespan, TWO_WEEKS // 4), TWO_WEEKS * 4)
+    target, _, _ = compact_to_target(bits4)
+    new = target * t // TWO_WEEKS
+    if new > pow_limit:
+        new = pow_limit
+    return target_to_compact(new)
